@@ -301,6 +301,12 @@ func Worker(t *testing.T, id, tier string, seed uint64, shard, nshards int, budg
 		runLimit = time.Duration(v) * time.Second
 	}
 	progress := os.Getenv("VERIF_PROGRESS")
+	skipPlans := map[int]bool{}
+	for _, f := range strings.Split(os.Getenv("VERIF_SKIP_PLANS"), ",") {
+		if v, err := strconv.Atoi(f); err == nil {
+			skipPlans[v] = true
+		}
+	}
 	var dump *os.File
 	if path := os.Getenv("VERIF_DUMP_HASHES"); path != "" {
 		dump, _ = os.Create(path)
@@ -312,11 +318,16 @@ func Worker(t *testing.T, id, tier string, seed uint64, shard, nshards int, budg
 			res.Complete = false
 			continue
 		}
+		if skipPlans[i] {
+			// this plan killed an earlier incarnation of this worker (crash or
+			// real-time limit); the driver reports it separately
+			continue
+		}
 		plan := p.Plan(tier, seed, i)
 		if progress != "" {
 			// lets the driver turn a process crash (fatal error or panic in a
 			// library goroutine) into a replay file for exactly this plan
-			pb, _ := json.Marshal(plan)
+			pb, _ := json.Marshal(map[string]any{"i": i, "plan": plan})
 			_ = os.WriteFile(progress, pb, 0o644)
 		}
 		stopWatch := runWatchdog(runLimit)
